@@ -483,9 +483,7 @@ theorem submit_accepted (s : State σ) (op : SubmitOp) (r : Req) :
   split
   · left; rfl
   · split
-    · split
-      · left; rfl
-      · right; rfl
+    · right; rfl
     · right; rfl
   · simp only []
     split
